@@ -22,9 +22,9 @@ RULE = ('random declared parameter sets per metamodel (3-4 metamodels with diffe
         'closure has >= 2 files')
 REQUIRED = {'loads': 400, 'rejected_undeclared': 80, 'accepted': 150, 'imported_models_checked': 200, 'api_from_str': 50,
             'api_from_str_file_name': 30, 'api_from_file': 100, 'metamodels_alive': 3, 'search_path_loads': 50, 'loads_with_odd_undeclared_name': 100}
-NAMES = ['alpha', 'beta', 'gamma', 'delta', 'project_root', 'debug_level']
+NAMES = ['alpha', 'beta', 'gamma', 'delta', 'project_root', 'debug_level', 'out-dir', 'max_depth']
 # names that are never declared (any string can be a keyword of **kwargs)
-ODD = ['', ' ', '0', 'a-b', 'Alpha', 'alpha ', 'None']
+ODD = ['', ' ', '0', 'a-b', 'Alpha', 'alpha ', 'None', 'out_dir', 'max-depth', 'project-root', 'debug-level']
 
 
 def one(ctx, i, rep=None):
@@ -53,7 +53,7 @@ def one(ctx, i, rep=None):
                 mm.register_scope_providers({'*.*': sp.FQNImportURI(search_path=[os.path.join(tmp, 'sub')])})
             elif prov == 'globalrepo':
                 mm.register_scope_providers({'*.*': sp.PlainNameGlobalRepo(os.path.join(tmp, '**', '*.m'), glob_args={'recursive': True})})
-            declared = set(r.sample(NAMES[:4] + ['debug_level'], r.randint(0, 3)))
+            declared = set(r.sample(NAMES[:4] + ['debug_level', 'out-dir', 'max_depth'], r.randint(0, 4)))
             for n in sorted(declared):
                 mm.model_param_defs.add(n, 'parameter ' + n)
             mms.append((mm, declared | {'project_root'}, prov))
